@@ -61,6 +61,8 @@ def setup(c):
     # compile mirisim for both targets
     miri_run(c, ['conc', '--from', '0', '--to', '0'], [])
     miri_run(c, ['hist', '--from', '0', '--to', '0'], [], target='i686-unknown-linux-gnu')
+    # ... and the hooked variant used by the refused-copy scenario (also runs it once, ~3 s)
+    miri_run(c, ['big32-fail'], ['-Zmiri-seed=0'], target='i686-unknown-linux-gnu')
 
 
 def failing_seeds(out):
